@@ -417,6 +417,8 @@ package composite
 // thin contracts of the bookkeeping helpers (their list manipulation is not under contract)
 //@ func parentRevision.addChild(pr, apiGroup, kind, name) ()
 //@   requires pr != nil && pr.revision != nil
+//@   // claims are recorded under the child's name relative to the parent (key discipline, see UniformObjectMap.FindGroupKindName)
+//@   requires [C07,C09] ufb_relativeKey(name)
 //@   trusted list bookkeeping (nested slices of names): not under contract; callers rely on the call events only
 //@   ensures pr.revision == old(pr.revision) && pr.syncResult == old(pr.syncResult) && pr.parent == old(pr.parent)
 
